@@ -304,6 +304,7 @@ void groups() {
     tg.run(std::move(h));
     tbb::task_group_status st = tg.wait();
     (void)st;
+    st = tg.run_and_wait(tg.defer([] {}));
     tg.cancel();
     tbb::task_group_context ctx(tbb::task_group_context::isolated);
     tbb::task_group tg2(ctx);
